@@ -142,3 +142,35 @@ def calls_in(b, blocks, suffixes):
 def reaches_success(b, block, fail_markers=("from_residual",)):
     """does the block lie on a path to the normal end of the function (not only on `?` error exits)?"""
     return True
+
+
+def leaf_defs(body, l, depth=0):
+    """[(block, rvalue)] definitions of local l, following plain copies/moves of other locals"""
+    out = []
+    for (bi, si, rv) in body.defs().get(l, []):
+        if si != "term" and rv["k"] == "use" and rv["op"].get("k") in ("copy", "move") and not rv["op"]["p"]["proj"] and depth < 6:
+            out.extend(leaf_defs(body, rv["op"]["p"]["l"], depth + 1))
+        else:
+            out.append((bi, si, rv))
+    return out
+
+
+def local_guards(body, site, join):
+    """the switches that decide whether `site` executes on the way to `join`: they dominate the
+    site, the site is reachable through only some of their edges, and `join` is reachable through
+    all of them.  Returns [(switch block, discr expr, description of the edge taken to the site)]"""
+    out = []
+    for d in sorted(body.dominators().get(site, ())):
+        t = body.blocks[d]["term"]
+        if t["k"] != "switch" or d == site:
+            continue
+        succ = body.succs(d)
+        via = [s for s in set(succ) if s == site or body.can_reach(s, site)]
+        if len(via) == len(set(succ)):
+            continue                       # site reachable through every edge: not a guard of it
+        if not all(s == join or body.can_reach(s, join) for s in set(succ)):
+            continue                       # an early exit, not a guard around the site
+        vals = [v for v, tb in t["values"] if tb in via]
+        edge = ("otherwise" if t["otherwise"] in via else "") + ("=%s" % vals if vals else "")
+        out.append((d, body.expr_of_operand(t["discr"], 16), edge))
+    return out
